@@ -271,10 +271,26 @@ def breakpoint_sets(rng, mods, pts, k):
     return [sets[i] for i in order_]
 
 
+def long_case(rng):
+    """A curve with more than 2**16 points and breakpoint sets mixing adjacent small indices with far right ones."""
+    n = int(rng.integers(70000, 100000))
+    x = np.arange(1, n + 1, dtype=float)
+    y = 1.0 / np.sqrt(x) + 0.05 + 0.01 * np.sin(x / 997.0)
+    pts = np.ascontiguousarray(np.column_stack((x, y)))
+    far = sorted(int(v) for v in rng.integers(65536, n - 1, 3))
+    base = [0, 1, 2, 3, 4, 5]
+    sets = [np.array(base + far[:1] + [n - 1]), np.array(base[:4] + far + [n - 1]), np.array([0, 2, 4] + far[1:] + [n - 1]),
+            np.array([0, 1, 3, 5, 1000, 40000] + far + [n - 1]), np.array([0, n - 1])]
+    return {'points': pts, 'family': 'long(>65536 points)', 'layout': 'C', 'cost': pick(rng, COSTS), 'sets': sets,
+            'aslist': False, 'long': True,
+            'grdp': {'t': 0.5, 'distance': 'shortest', 'order': 'segment', 'min_points': 0}}
+
+
 def cases(rng, tier, shard, nshards):
     from .. import boot
     mods = boot.modules()
     total = META['quick_cases'] if tier == 'quick' else META['thorough_cases']
+    yield long_case(rng)
     for i in range(shard_count(total, shard, nshards)):
         r = rng.random()
         if tier == 'thorough' and r < 0.02:
@@ -319,6 +335,9 @@ def run_case(ctx, mods, case):
             install.guarded(ctx, 'complete:evaluation.compute_global_rmse', ev.compute_global_rmse, pts, np.asarray(s), shared_rmse)
         if j < 3 and len(s) >= 3 and len(s) <= 40:
             install.guarded(ctx, 'complete:evaluation.mip', ev.mip, pts, np.asarray(s))
+    if case.get('long'):
+        ctx.h('metric', 'long-curve')
+        return
     ctx.h('metric', case['cost'])
     ctx.h('sets_per_history', len(case['sets']) if len(case['sets']) < 10 else ('10-19' if len(case['sets']) < 20 else '20+'))
     # the internal cache of global RDP is observed as well
